@@ -357,7 +357,14 @@ def m_vec_extend(I, st, call):
     within = v.cap is not None and st.entails(v.cap - nl)
     tag = None
     src = call.args[1]
-    if isinstance(src, SliceV) and v.len.is_const() and v.len.c == 0:
+    if isinstance(src, SliceV) and v.tag is not None and src.off.is_const() and src.len.is_const() and src.len.c <= 16:
+        # a piece of an array whose elements are tracked: the same as pushing them one by one
+        got = array_elems(I, st, src.base, src.off.c, src.len.c)
+        if got is not None and all(isinstance(e, IntV) for e in got):
+            tag = v.tag
+            for e in got:
+                tag = ("pushed", tag, e)
+    if tag is None and isinstance(src, SliceV) and v.len.is_const() and v.len.c == 0:
         tag = ("slice", src.base, src.off, src.len)     # an empty vector extended by a slice is a copy of that slice
     I.write(st, p, VecV(nl, v.cap if within else None, tag, v.gen if within else I.newgen()))
     return [(st, UNIT)]
@@ -438,7 +445,9 @@ def m_ref_deref(I, st, call):
        "<alloc::vec::Vec<T, A> as core::ops::index::IndexMut<I>>::index_mut",
        "core::slice::index::<impl core::ops::index::Index<I> for [T]>::index",
        "core::slice::index::<impl core::ops::index::IndexMut<I> for [T]>::index_mut",
-       "core::str::traits::<impl core::ops::index::Index<I> for str>::index")
+       "core::str::traits::<impl core::ops::index::Index<I> for str>::index",
+       "core::array::<impl core::ops::index::Index<I> for [T; N]>::index",
+       "core::array::<impl core::ops::index::IndexMut<I> for [T; N]>::index_mut")
 def m_index(I, st, call):
     is_str = "for str" in call.path
     s = as_slice(I, st, call.args[0], call.arg_tys[0])
@@ -648,13 +657,19 @@ def m_chunks(I, st, call):
     return [(st, OpaqueV(call.dest_ty, tuple(attrs)))]
 
 
-@model("core::slice::<impl [T]>::iter", "core::slice::<impl [T]>::iter_mut")
+@model("core::slice::<impl [T]>::iter", "core::slice::<impl [T]>::iter_mut",
+       "core::slice::iter::<impl core::iter::traits::collect::IntoIterator for &'a [T]>::into_iter",
+       "core::slice::iter::<impl core::iter::traits::collect::IntoIterator for &'a mut [T]>::into_iter",
+       "<&'a alloc::vec::Vec<T, A> as core::iter::traits::collect::IntoIterator>::into_iter",
+       "<&'a mut alloc::vec::Vec<T, A> as core::iter::traits::collect::IntoIterator>::into_iter")
 def m_slice_iter(I, st, call):
     s = as_slice(I, st, call.args[0], call.arg_tys[0])
-    attrs = [("iter", "slice"), ("mut", call.path.endswith("iter_mut"))]
+    at0 = call.arg_tys[0] if call.arg_tys else None
+    attrs = [("iter", "slice"), ("mut", call.path.endswith("iter_mut") or (call.path.endswith("into_iter") and bool(at0) and at0[0] == "ref" and len(at0) > 1 and at0[1] is True))]
     if s is not None:
         attrs.append(("count", s.len))
         attrs.append(("src", s.base))
+        attrs.append(("src_off", s.off))
         if isinstance(s.base, tuple) and s.base[0] == "vec":
             attrs.append(("src_place", s.base[1]))
     return [(st, OpaqueV(call.dest_ty, tuple(attrs)))]
@@ -696,6 +711,82 @@ def m_take(I, st, call):
     if isinstance(a, OpaqueV) and a.get("infinite") and isinstance(n, IntV):
         attrs.append(("count", n.aff))
     return [(st, OpaqueV(call.dest_ty, tuple(attrs)))]
+
+
+def array_elems(I, st, base, off, n):
+    """the n elements from offset off of a tracked array (base ("arr", place)): list of values, or None"""
+    if not (isinstance(base, tuple) and base and base[0] == "arr" and isinstance(base[1], Place)):
+        return None
+    arr = I.read(st, base[1])
+    if not isinstance(arr, OpaqueV):
+        return None
+    el = arr.get("elems")
+    if isinstance(el, StructV) and off + n <= len(el.fields):
+        return list(el.fields[off:off + n])
+    return None
+
+
+@model("core::iter::traits::iterator::Iterator::take_while")
+def m_take_while(I, st, call):
+    a = call.args[0]
+    if not isinstance(a, OpaqueV):
+        return None
+    return [(st, OpaqueV(call.dest_ty, tuple(x for x in a.attrs if x[0] != "take_while") + (("take_while", (call.args[1], call.arg_tys[1])),)))]
+
+
+@model("core::iter::traits::iterator::Iterator::count")
+def m_iter_count(I, st, call):
+    a = call.args[0]
+    tw = a.get("take_while") if isinstance(a, OpaqueV) else None
+    if tw is None:
+        c = iter_count(I, st, a)
+        if c is not None and isinstance(a, OpaqueV) and not [x for x in a.attrs if x[0] in ("adapt", "skip", "map_fn")]:
+            return [(st, IntV(c, USIZE))]
+        return [(st, I.fresh_int(st, "count", USIZE, 0, ISIZE_MAX))]
+    f, fty = tw
+    cnt, off = a.get("count"), a.get("src_off")
+    if a.get("iter") == "slice" and isinstance(cnt, Aff) and cnt.is_const() and cnt.c <= 16 and isinstance(off, Aff) and off.is_const() \
+            and not [x for x in a.attrs if x[0] in ("adapt", "skip", "map_fn")]:
+        elems = array_elems(I, st, a.get("src"), off.c, cnt.c)
+        if elems is not None:
+            # exact: the predicate is evaluated on each element in turn; the count is the index of the first failure
+            out, states = [], [st]
+            for k, e in enumerate(elems):
+                nxt = []
+                for s_ in states:
+                    # the predicate takes &Item; Item is itself a reference for slice iterators: one cell per level
+                    aty = _closure_arg_ty(I, fty, 1)
+                    arg = e
+                    depth = 0
+                    while aty is not None and aty[0] == "ref" and depth < 3:
+                        aty = aty[2]
+                        depth += 1
+                    for _ in range(max(depth, 1)):
+                        I.nsym += 1
+                        key = ("h", "twitem*%d" % I.nsym)
+                        s_.cells[key] = arg
+                        arg = RefV(Place(key), False)
+                    rs = call_fn_value(I, s_, call, f, fty, [arg], ("take_while", k))
+                    if rs is None:
+                        return None
+                    for s2, rv in rs:
+                        rv = I.as_int(s2, rv, BOOL, "pred")
+                        c = rv.cond if rv.cond is not None else ("cmp", "Ne", rv.aff, Aff.const(0))
+                        s3 = s2.copy()
+                        for s4 in assume(s2, c, False):
+                            out.append((s4, IntV(Aff.const(k), USIZE)))
+                        for s4 in assume(s3, c, True):
+                            nxt.append(s4)
+                states = nxt
+                if len(states) > 8:
+                    return None
+            for s_ in states:
+                out.append((s_, IntV(Aff.const(len(elems)), USIZE)))
+            return out
+    r = I.fresh_int(st, "count", USIZE, 0, ISIZE_MAX)
+    if isinstance(cnt, Aff):
+        st.add_fact(cnt - r.aff)
+    return [(st, r)]
 
 
 @model("core::iter::traits::iterator::Iterator::skip")
@@ -1161,6 +1252,24 @@ def m_next(I, st, call):
         r = chunks_next(I, st, call, ref, it)
         if r is not None:
             return r
+    if isinstance(it, OpaqueV) and it.get("iter") == "slice" and isinstance(it.get("count"), Aff) and isinstance(ref, RefV) \
+            and not [a for a in it.attrs if a[0] == "adapt"] and getattr(I, "precise_slice_next", True):
+        # a slice iterator yields exactly `count` items: None when none is left, else one item and count - 1 remain
+        dt = call.dest_ty
+        item_ty = dt[2][0] if dt and dt[0] == "adt" and dt[1] == "core::option::Option" and dt[2] else None
+        if item_ty is not None:
+            cnt = it.get("count")
+            out = []
+            s0 = st.copy()
+            s0.add_eq(cnt, Aff.const(0))
+            if not s0.dead:
+                out.append((s0, mk_none(dt)))
+            st.add_fact(cnt - 1)
+            if not st.dead:
+                item = _elem_item(I, st, it, item_ty)
+                I.write(st, ref.place, it.with_(count=cnt - 1))
+                out.append((st, mk_option(I, item, dt)))
+            return out
     if isinstance(it, OpaqueV) and isinstance(it.get("last_key"), Aff) and "btree" in call.path:
         dt = call.dest_ty
         item_ty = dt[2][0] if dt and dt[0] == "adt" and dt[2] else None
